@@ -8,6 +8,7 @@ import (
 	"sync"
 
 	"github.com/deepteams/webp/internal/dsp"
+	"github.com/deepteams/webp/internal/verifhook"
 )
 
 // importUVWorker holds pre-allocated buffers for UV conversion goroutines.
@@ -1363,6 +1364,7 @@ func (enc *VP8Encoder) EncodeFrame() ([]byte, error) {
 		} else {
 			enc.encodeFrame()
 		}
+		verifhook.FrameEncoded(enc.yPlane, enc.uPlane, enc.vPlane, enc.yStride, enc.uvStride, enc.width, enc.height)
 
 		if !doSearch {
 			break // quality mode: single pass
